@@ -18,7 +18,7 @@ def errClass (e : PyErr) : String :=
   | .indexError s => if s.startsWith "KeyError" then "err:KeyError" else "err:IndexError"
   | .assertFailed _ => "err:AssertionError"
   | .zeroDivision _ => "err:ZeroDivisionError"
-  | .noneAttribute s => if s.startsWith "UnboundLocalError" then "err:UnboundLocalError" else "err:AttributeError"
+  | .noneAttribute _ => "err:AttributeError"
   | .recursion _ => "err:RecursionError"
   | .valueError _ => "err:ValueError"
 
